@@ -1450,7 +1450,8 @@ class Server:
     @ConnectionConditions(ConnectionConditions.login_required)
     async def pasv(self, connection, rest):
         async def handler(reader, writer):
-            if connection.future.data_connection.done():
+            session_gone = connection.command_connection not in self.connections
+            if connection.future.data_connection.done() or session_gone:
                 writer.close()
             else:
                 connection.data_connection = ThrottleStreamIO(
@@ -1495,7 +1496,8 @@ class Server:
     @ConnectionConditions(ConnectionConditions.login_required)
     async def epsv(self, connection, rest):
         async def handler(reader, writer):
-            if connection.future.data_connection.done():
+            session_gone = connection.command_connection not in self.connections
+            if connection.future.data_connection.done() or session_gone:
                 writer.close()
             else:
                 connection.data_connection = ThrottleStreamIO(
